@@ -339,18 +339,92 @@ def execute(entry, value, keyname, reg):
 # ---------------------------------------------------------------------------
 # value encodings for replay files
 # ---------------------------------------------------------------------------
+# deep / long values (built iteratively; json.dumps / repr / == of them may exceed the recursion limit, so
+# the harness itself never recurses into them: they are written as {"$deep": [kind, n]} markers)
+_DEEP = {}
+
+
+def deep(kind, n):
+    if kind == "list":
+        v = []
+        for _ in range(n):
+            v = [v]
+    elif kind == "dict":
+        v = {}
+        for _ in range(n):
+            v = {"a": v}
+    elif kind == "mixed":
+        v = "x"
+        for i in range(n):
+            v = [v] if i % 2 else {"k": v}
+    elif kind == "long_list":
+        v = ["a"] * n
+    else:
+        v = {"k%d" % i: i for i in range(n)}
+    _DEEP[id(v)] = (kind, n, v)
+    return v
+
+
+def deep_values(quick=True):
+    if not hasattr(deep_values, "cache"):
+        deep_values.cache = [deep("list", 200), deep("dict", 200), deep("list", 900), deep("dict", 900), deep("mixed", 900),
+                             deep("list", 5000), deep("dict", 5000), deep("long_list", 100000), deep("long_dict", 100000)]
+    return deep_values.cache
+
+
+def mark(v):
+    """copy of a (shallow) JSON value in which registered deep values are replaced by markers"""
+    if id(v) in _DEEP:
+        k, n, _ = _DEEP[id(v)]
+        return {"$deep": [k, n]}
+    if isinstance(v, dict):
+        return {k: mark(x) for k, x in v.items()}
+    if isinstance(v, list):
+        return [mark(x) for x in v]
+    return v
+
+
+def unmark(v):
+    if isinstance(v, dict):
+        if set(v) == {"$deep"}:
+            return deep(*v["$deep"])
+        return {k: unmark(x) for k, x in v.items()}
+    if isinstance(v, list):
+        return [unmark(x) for x in v]
+    return v
+
+
+def has_deep(v, depth=0):
+    if id(v) in _DEEP or depth > 60:
+        return True
+    if isinstance(v, dict):
+        return len(v) > 5000 or any(has_deep(x, depth + 1) for x in v.values())
+    if isinstance(v, list):
+        return len(v) > 5000 or any(has_deep(x, depth + 1) for x in v)
+    return False
+
+
 def enc_value(v):
     if isinstance(v, bytes):
-        return {"t": "bytes", "hex": v.hex()}
+        return {"t": "bytes", "hex": v.hex()} if len(v) < 20000 else {"t": "bytes", "hex": v[:64].hex(), "len": len(v), "sha1": __import__("hashlib").sha1(v).hexdigest(), "z": base64.b64encode(zlib.compress(v)).decode()}
     if isinstance(v, str):
-        return {"t": "str", "json": json.dumps(v)}
-    return {"t": "dict", "json": json.dumps(v)}
+        return {"t": "str", "json": json.dumps(v)} if len(v) < 20000 else {"t": "strz", "len": len(v), "z": base64.b64encode(zlib.compress(v.encode("utf-8", "surrogatepass"))).decode()}
+    return {"t": "dict", "json": json.dumps(mark(v))}
 
 
 def dec_value(d):
     if d["t"] == "bytes":
-        return bytes.fromhex(d["hex"])
-    return json.loads(d["json"])
+        return zlib.decompress(base64.b64decode(d["z"])) if "z" in d else bytes.fromhex(d["hex"])
+    if d["t"] == "strz":
+        return zlib.decompress(base64.b64decode(d["z"])).decode("utf-8", "surrogatepass")
+    v = json.loads(d["json"])
+    return unmark(v) if d["t"] == "dict" else v
+
+
+def short(v, n=200):
+    """a printable abbreviation of an input that never recurses into deep values"""
+    e = enc_value(v)
+    return (e.get("json") or e.get("hex") or "<%s of length %s>" % (e["t"], e.get("len")))[:n]
 
 
 # ---------------------------------------------------------------------------
@@ -960,6 +1034,7 @@ def all_calls(rng, quick=True):
     calls += stream2_jwe_json(rng, quick)
     calls += stream3(rng, quick)
     calls += stream_keys(rng, quick)
+    calls += stream_deep(rng, quick)
     lib_calls, cov = stream_library(rng, quick)
     calls += lib_calls
     LAST_COVERAGE.clear(); LAST_COVERAGE.update(cov)
@@ -1260,4 +1335,109 @@ def stream_keys(rng, quick=True):
                     if quick and k != kn and rng.random() < 0.55:
                         continue
                     calls.append(("jwe.decrypt_compact", t2, k, "all", "keys/twofaults"))
+    return calls
+
+
+
+def nested_text(n, kind="list"):
+    return (b"[" * n + b"]" * n) if kind == "list" else (b'{"a":' * n + b"1" + b"}" * n)
+
+
+def stream_deep(rng, quick=True):
+    """deep / long values in every attacker-controlled position of the JSON serializations, and deeply nested
+    member values inside the JSON text of compact headers"""
+    calls = []
+    payload = b'{"iss":"a"}'
+    pseg = b64u(payload)
+    dv = deep_values()
+    names_jws = ["kid", "crit", "jwk", "x5c", "typ", "zz", "alg", "b64", "jku"]
+    for v in dv:
+        for m in names_jws:
+            hdr = {m: v}
+            mem = jws_member({"alg": "HS256"}, hdr, pseg, "HS256", "oct32")
+            mem2 = jws_member(None, {"alg": "HS256", **hdr}, pseg, "HS256", "oct32", omit_protected=True)
+            good = jws_member({"alg": "HS256"}, {"kid": "oct32"}, pseg, "HS256", "oct32")
+            vals = [{"payload": pseg, **mem}, {"payload": pseg, "signatures": [mem]}, {"payload": pseg, "signatures": [good, mem]},
+                    {"payload": pseg, **mem2}, {"payload": pseg, **good, "zz": v}, {"payload": pseg, "signatures": [good], "zz": v}]
+            for val in vals:
+                for e in ("jws.deserialize_json", "rfc7797.deserialize_json"):
+                    for k in ("oct32", "set:all"):
+                        for reg in ("all", "lax"):
+                            if quick and rng.random() < 0.6:
+                                continue
+                            calls.append((e, val, k, reg, "deep/jwsjson"))
+        # a deep value INSIDE a member value
+        for hdr in ({"jwk": {"kty": "oct", "zz": v}}, {"x5c": ["a", v]}, {"crit": ["kid", v], "kid": "oct32"}, {"zz": {"y": [v]}}):
+            mem = jws_member({"alg": "HS256"}, hdr, pseg, "HS256", "oct32")
+            for val in ({"payload": pseg, **mem}, {"payload": pseg, "signatures": [mem]}):
+                for e in ("jws.deserialize_json", "rfc7797.deserialize_json"):
+                    calls.append((e, val, rng.choice(["oct32", "set:all"]), rng.choice(["all", "lax"]), "deep/jwsjson"))
+    names_jwe = ["kid", "skid", "epk", "apu", "apv", "p2s", "p2c", "iv", "tag", "crit", "zip", "enc", "alg", "jwk", "x5c", "zz"]
+    bases = [({"alg": "dir", "enc": "A128GCM"}, "oct16")]
+    for b, kn in jwe_base_headers():
+        if b["alg"] in ("ECDH-ES", "ECDH-ES+A128KW", "PBES2-HS256+A128KW", "A128GCMKW", "A128KW") and kn in ("ec256", "oct16"):
+            bases.append((b, kn))
+    for base, kn in bases:
+        if base["alg"] == "dir":
+            core = None
+        else:
+            tok = valid_jwe_compact(base, kn, payload)
+            hs, ek, iv, ct, tg = tok.split(".")
+        for v in dv:
+            for m in names_jwe:
+                variants = [{m: v}]
+                if m == "epk":
+                    variants += [{"epk": {**EPK_EC, mm: v}} for mm in ("kty", "crv", "x", "y", "d", "use", "key_ops", "zz")]
+                for other in variants:
+                    for where in ("unprotected", "header", "recipient", "recipient2", "top"):
+                        if quick and rng.random() < (0.5 if base["alg"] == "dir" else 0.8):
+                            continue
+                        prot = {k: x for k, x in base.items() if k not in other}
+                        if base["alg"] == "dir":
+                            d = jwe_dir_json(prot, payload, "A128GCM", "oct16", general=where.startswith("recipient"))
+                        else:
+                            d = {"protected": b64u(jdump(prot)), "iv": iv, "ciphertext": ct, "tag": tg}
+                            r = {"encrypted_key": ek} if ek else {}
+                            if where.startswith("recipient"):
+                                d["recipients"] = [r]
+                            else:
+                                d.update(r)
+                        if where == "unprotected":
+                            d["unprotected"] = other
+                        elif where == "header":
+                            d["header"] = other
+                        elif where == "recipient":
+                            d["recipients"] = [{**d["recipients"][0], "header": other}]
+                        elif where == "recipient2":
+                            d["recipients"] = [d["recipients"][0], {"header": other}]
+                        else:
+                            d["zz"] = v
+                        for k in (kn, "set:all"):
+                            sfx = "+s:set:all" if m == "skid" else ""
+                            calls.append(("jwe.decrypt_json", d, k + sfx, rng.choice(["all", "lax", "any1"]), "deep/jwejson"))
+    # compact: deeply nested member values in the JSON text of the header (depths json.loads accepts, and beyond)
+    for n in (200, 900, 5000):
+        for kind in ("list", "dict"):
+            nt = nested_text(n, kind)
+            for m in ("kid", "crit", "zz", "jwk", "x5c", "typ", "b64"):
+                raw = b'{"alg":"HS256","' + m.encode() + b'":' + nt + b"}"
+                tok = jws_compact(None, payload, "HS256", "oct32", header_raw=raw)
+                for e in ("jws.deserialize_compact", "rfc7797.deserialize_compact", "jwt.decode/jws"):
+                    for k in ("oct32", "set:all"):
+                        calls.append((e, tok, k, rng.choice(["all", "lax"]), "deep/compact"))
+                flat = {"payload": pseg, **jws_member(None, None, pseg, "HS256", "oct32", omit_protected=True)}
+            for m in ("kid", "crit", "zz", "enc", "zip", "epk", "apu", "p2s", "p2c", "iv", "tag", "skid", "alg"):
+                hdr = b'{"alg":"dir","enc":"A128GCM","zip":"DEF"'
+                raw = hdr + b',"' + m.encode() + b'":' + nt + b"}" if m not in ("alg", "enc", "zip") else \
+                    hdr.replace(b'"%s":"%s"' % (m.encode(), {"alg": b"dir", "enc": b"A128GCM", "zip": b"DEF"}[m]), b'"' + m.encode() + b'":' + nt) + b"}"
+                tok = jwe_dir_compact(None, raw_deflate(payload), "A128GCM", "oct16", header_raw=raw)
+                for e in ("jwe.decrypt_compact", "jwt.decode/jwe"):
+                    for k in ("oct16", "set:all"):
+                        calls.append((e, tok, k, rng.choice(["all", "lax"]), "deep/compact"))
+                d = {"protected": tok.split(".")[0], "iv": tok.split(".")[2], "ciphertext": tok.split(".")[3], "tag": tok.split(".")[4]}
+                calls.append(("jwe.decrypt_json", d, "oct16", rng.choice(["all", "lax"]), "deep/compact"))
+            # claims
+            for hdr, body in (({"alg": "dir", "enc": "A128GCM"}, nt),):
+                calls.append(("jwt.decode/jwe", jwe_dir_compact(hdr, body, "A128GCM", "oct16"), "oct16", "all", "deep/compact"))
+            calls.append(("jwt.decode/jws", jws_compact({"alg": "HS256"}, b'{"a":' + nt + b"}", "HS256", "oct32"), "oct32", "all", "deep/compact"))
     return calls
